@@ -400,7 +400,8 @@ M.contract(P_PSV + ':SymbolsValidator.__init__',
 # first failure.  The event records (step, executor, phase).
 M.contract('exactly_lib.execution.impl.phase_step_execution:run_instructions_phase_step', trusted=True,
            params=dict(step=Any_, instruction_executor=EXECUTOR, phase_contents=Iface(SectionContentsI)),
-           modifies=('instruction_executor',), may_raise=(PhaseStepFailureException,), event='phase')
+           modifies=('instruction_executor',), may_raise=(PhaseStepFailureException,), event='phase',
+           event_on_raise='raised')
 M.trust('execution.impl.phase_step_execution.run_instructions_phase_step applies the given executor to each '
         'instruction of the given phase in order and raises PhaseStepFailureException at the first failure (C01)')
 
@@ -428,6 +429,7 @@ M.contract(P_PSV + ':SymbolsValidator._validate',
            raises_only=())
 
 M.contract(P_PSV + ':SymbolsValidator._validate_atc', params=dict(self=VALIDATOR), modifies=('self',), event='atc',
+           event_on_raise='raised',
            old=lambda self: dict(view(self._symbols)),
            raises={PhaseStepFailureException: {
                'ensures': lambda self, exc, old:
@@ -446,12 +448,12 @@ def _phase_of(test_case, k):
             test_case.cleanup_phase)[k]
 
 
-def _is_prefix_of_execution_order(self, trace):
-    """the ghost trace is the first len(trace) steps of: setup, act, before-assert, assert, cleanup --
+def _is_prefix_of_execution_order(self, steps):
+    """`steps` are the first len(steps) steps of: setup, act, before-assert, assert, cleanup --
     each with the one shared executor / table"""
-    ok = len(trace) <= 5
-    for k in range(min(len(trace), 5)):
-        e = trace[k]
+    ok = len(steps) <= 5
+    for k in range(min(len(steps), 5)):
+        e = steps[k]
         if k == 1:
             ok = ok and e[0] == 'atc' and e[1]['self'] is self
         else:
@@ -463,7 +465,11 @@ def _is_prefix_of_execution_order(self, trace):
 
 M.contract(P_PSV + ':SymbolsValidator.validate', params=dict(self=VALIDATOR), modifies=('self',),
            raises={PhaseStepFailureException: {
-               'ensures': lambda self, trace: _is_prefix_of_execution_order(self, trace)}},
-           ensures={'all five phases, in execution order, with the one shared table': lambda self, trace:
-           len(trace) == 5 and _is_prefix_of_execution_order(self, trace)},
+               'ensures': lambda self, exc, trace:
+               # the failing step is the last one started, its failure is propagated unchanged, nothing follows
+               len(trace) >= 2 and trace[-1][0] == 'raised' and trace[-1][1] is exc
+               and all(e[0] != 'raised' for e in trace[:-1])
+               and _is_prefix_of_execution_order(self, trace[:-1])}},
+           ensures={'all five phases, in execution order, with the one shared table; none of them failed':
+                    lambda self, trace: len(trace) == 5 and _is_prefix_of_execution_order(self, trace)},
            raises_only=())
